@@ -145,3 +145,139 @@ Proof.
   intros L1 L2 N. rewrite sum_fixrot by (unfold rel_com; rewrite ?map_length; assumption).
   rewrite wsum_rel_com by assumption. apply v3_eq; simpl; ring.
 Qed.
+
+(* ================= FixRot: the angular velocity exists (and is unique) for every non-collinear geometry ================= *)
+Definition dot (a b : v3) : R := vx a * vx b + vy a * vy b + vz a * vz b.
+Definition qf (A : m3) (v : v3) : R := dot v (mapply A v).
+Definition msym (A : m3) : Prop := a01 A = a10 A /\ a02 A = a20 A /\ a12 A = a21 A.
+
+(* ---- the quadratic form of the inertia tensor: v . I v = sum_i m_i |r_i x v|^2 *)
+Lemma inertia1_qf m r v : qf (inertia1 m r) v = m * norm2 (cross r v).
+Proof. unfold qf, dot, norm2. simpl. ring. Qed.
+Lemma qf_madd A B v : qf (madd A B) v = qf A v + qf B v.
+Proof. unfold qf, dot. simpl. ring. Qed.
+Lemma qf_mzero v : qf mzero v = 0.
+Proof. unfold qf, dot. simpl. ring. Qed.
+Fixpoint sum_cross (ms : list R) (rs : list v3) (v : v3) : R :=
+  match ms, rs with m :: ms', r :: rs' => m * norm2 (cross r v) + sum_cross ms' rs' v | _, _ => 0 end.
+Lemma inertia_qf : forall ms rs v, qf (inertia ms rs) v = sum_cross ms rs v.
+Proof.
+  induction ms as [|m ms IH]; intros [|r rs] v; cbn [inertia sum_cross]; try apply qf_mzero.
+  rewrite qf_madd, inertia1_qf, IH. reflexivity.
+Qed.
+Lemma inertia_sym : forall ms rs, msym (inertia ms rs).
+Proof.
+  induction ms as [|m ms IH]; intros [|r rs]; cbn [inertia]; try (repeat split; reflexivity).
+  destruct (IH rs) as (A & B & C). unfold msym. simpl. rewrite A, B, C. repeat split; ring.
+Qed.
+
+Lemma norm2_nonneg a : 0 <= norm2 a.
+Proof. unfold norm2. nra. Qed.
+Lemma norm2_zero a : norm2 a = 0 -> a = vzero.
+Proof. unfold norm2. intro H. apply v3_eq; simpl; nra. Qed.
+
+(* two vectors parallel to a common non-zero vector are parallel to each other *)
+Lemma parallel_trans a b v : v <> vzero -> cross a v = vzero -> cross b v = vzero -> cross a b = vzero.
+Proof.
+  intros Hv Ha Hb.
+  assert (norm2 v <> 0) as Hn by (intro E; apply Hv, norm2_zero, E).
+  (* |v|^2 a = (a.v) v  when a x v = 0 *)
+  assert (forall c, cross c v = vzero -> vscale (norm2 v) c = vscale (dot c v) v) as G.
+  { intros c Hc. injection Hc as C1 C2 C3. apply v3_eq; unfold norm2, dot; simpl.
+    - replace ((vx v * vx v + vy v * vy v + vz v * vz v) * vx c) with
+        ((vx c * vx v + vy c * vy v + vz c * vz v) * vx v + vy v * (vx c * vy v - vy c * vx v) - vz v * (vz c * vx v - vx c * vz v)) by ring.
+      rewrite C3, C2. ring.
+    - replace ((vx v * vx v + vy v * vy v + vz v * vz v) * vy c) with
+        ((vx c * vx v + vy c * vy v + vz c * vz v) * vy v + vz v * (vy c * vz v - vz c * vy v) - vx v * (vx c * vy v - vy c * vx v)) by ring.
+      rewrite C1, C3. ring.
+    - replace ((vx v * vx v + vy v * vy v + vz v * vz v) * vz c) with
+        ((vx c * vx v + vy c * vy v + vz c * vz v) * vz v + vx v * (vz c * vx v - vx c * vz v) - vy v * (vy c * vz v - vz c * vy v)) by ring.
+      rewrite C2, C1. ring. }
+  pose proof (G a Ha) as Ea. pose proof (G b Hb) as Eb.
+  injection Ea as A1 A2 A3. injection Eb as B1 B2 B3.
+  apply v3_eq; simpl.
+  - apply Rmult_eq_reg_l with (r := norm2 v * norm2 v); [|nra].
+    replace (norm2 v * norm2 v * (vy a * vz b - vz a * vy b)) with ((norm2 v * vy a) * (norm2 v * vz b) - (norm2 v * vz a) * (norm2 v * vy b)) by ring.
+    rewrite A2, A3, B2, B3. ring.
+  - apply Rmult_eq_reg_l with (r := norm2 v * norm2 v); [|nra].
+    replace (norm2 v * norm2 v * (vz a * vx b - vx a * vz b)) with ((norm2 v * vz a) * (norm2 v * vx b) - (norm2 v * vx a) * (norm2 v * vz b)) by ring.
+    rewrite A1, A3, B1, B3. ring.
+  - apply Rmult_eq_reg_l with (r := norm2 v * norm2 v); [|nra].
+    replace (norm2 v * norm2 v * (vx a * vy b - vy a * vx b)) with ((norm2 v * vx a) * (norm2 v * vy b) - (norm2 v * vy a) * (norm2 v * vx b)) by ring.
+    rewrite A1, A2, B1, B2. ring.
+Qed.
+
+Lemma sum_cross_nonneg : forall ms rs v, Forall (fun m => 0 < m) ms -> 0 <= sum_cross ms rs v.
+Proof.
+  induction ms as [|m ms IH]; intros [|r rs] v F; cbn [sum_cross]; try lra.
+  inversion F as [|? ? Hm F']; subst. pose proof (norm2_nonneg (cross r v)). specialize (IH rs v F'). nra.
+Qed.
+Lemma sum_cross_zero : forall ms rs v, Forall (fun m => 0 < m) ms -> length ms = length rs -> sum_cross ms rs v = 0 ->
+  forall r, In r rs -> cross r v = vzero.
+Proof.
+  induction ms as [|m ms IH]; intros [|r rs] v F L H x Hx; try discriminate; [destruct Hx|].
+  inversion F as [|? ? Hm F']; subst. cbn [sum_cross] in H.
+  pose proof (norm2_nonneg (cross r v)). pose proof (sum_cross_nonneg ms rs v F').
+  destruct Hx as [->|Hx].
+  - apply norm2_zero. nra.
+  - apply (IH rs v F'); [simpl in L; lia|nra|exact Hx].
+Qed.
+
+(* positive masses, two positions (relative to the centre of mass) that are not parallel: the inertia tensor is positive definite *)
+Theorem inertia_pd ms rs r1 r2 : Forall (fun m => 0 < m) ms -> length ms = length rs -> In r1 rs -> In r2 rs -> cross r1 r2 <> vzero ->
+  forall v, v <> vzero -> 0 < qf (inertia ms rs) v.
+Proof.
+  intros F L H1 H2 NC v Hv. rewrite inertia_qf. pose proof (sum_cross_nonneg ms rs v F) as P.
+  destruct (Req_dec (sum_cross ms rs v) 0) as [Z|NZ]; [|lra].
+  exfalso. apply NC. apply (parallel_trans r1 r2 v Hv); apply (sum_cross_zero ms rs v F L Z); assumption.
+Qed.
+
+(* ---- a symmetric positive-definite 3x3 matrix has a positive determinant (leading minors), hence I omega = L is solvable (Cramer) *)
+Lemma pd_det_pos A : msym A -> (forall v, v <> vzero -> 0 < qf A v) -> 0 < mdet A.
+Proof.
+  intros (S1 & S2 & S3) PD.
+  assert (0 < a00 A) as H0.
+  { specialize (PD (V3 1 0 0)). unfold qf, dot in PD. simpl in PD. assert (V3 1 0 0 <> vzero) by (intro E; injection E; lra). specialize (PD H). lra. }
+  set (m2 := a00 A * a11 A - a01 A * a01 A).
+  assert (0 < m2) as H1.
+  { specialize (PD (V3 (a01 A) (- a00 A) 0)). assert (V3 (a01 A) (- a00 A) 0 <> vzero) as NZ by (intro E; injection E; lra).
+    specialize (PD NZ). unfold qf, dot in PD. simpl in PD. unfold m2.
+    assert (a01 A * (a00 A * a01 A + a01 A * - a00 A + a02 A * 0) + - a00 A * (a10 A * a01 A + a11 A * - a00 A + a12 A * 0) + 0 * (a20 A * a01 A + a21 A * - a00 A + a22 A * 0)
+            = a00 A * (a00 A * a11 A - a01 A * a01 A)) as E by (rewrite <- S1; ring).
+    rewrite E in PD. nra. }
+  set (w := V3 (a01 A * a12 A - a02 A * a11 A) (a02 A * a01 A - a00 A * a12 A) m2).
+  assert (w <> vzero) as NZ by (intro E; injection E; intros; lra).
+  specialize (PD w NZ).
+  assert (qf A w = m2 * mdet A) as E.
+  { unfold qf, dot, w, m2, mdet. simpl. rewrite <- S1, <- S2, <- S3. ring. }
+  rewrite E in PD. nra.
+Qed.
+
+Definition madj (A : m3) : m3 :=
+  M3 (a11 A * a22 A - a12 A * a21 A) (a02 A * a21 A - a01 A * a22 A) (a01 A * a12 A - a02 A * a11 A)
+     (a12 A * a20 A - a10 A * a22 A) (a00 A * a22 A - a02 A * a20 A) (a02 A * a10 A - a00 A * a12 A)
+     (a10 A * a21 A - a11 A * a20 A) (a01 A * a20 A - a00 A * a21 A) (a00 A * a11 A - a01 A * a10 A).
+Definition msolve (A : m3) (b : v3) : v3 := vscale (/ mdet A) (mapply (madj A) b).
+Lemma msolve_solves A b : mdet A <> 0 -> mapply A (msolve A b) = b.
+Proof. intro D. unfold msolve. apply v3_eq; unfold mdet in *; simpl; field; exact D. Qed.
+Lemma msolve_unique A b x : mdet A <> 0 -> mapply A x = b -> x = msolve A b.
+Proof.
+  intros D E. subst b. unfold msolve. apply v3_eq; unfold mdet in *; simpl; field; exact D.
+Qed.
+
+(* FixRot for ANY non-collinear geometry, any positive masses, any momenta: the angular velocity the code solves for exists, is unique,
+   and removing omega x r leaves zero total angular momentum *)
+Theorem fixrot_any_noncollinear ms rs ps r1 r2 : Forall (fun m => 0 < m) ms -> length ms = length rs -> length rs = length ps ->
+  In r1 rs -> In r2 rs -> cross r1 r2 <> vzero ->
+  exists omega, mapply (inertia ms rs) omega = angmom rs ps /\ (forall o', mapply (inertia ms rs) o' = angmom rs ps -> o' = omega) /\
+                angmom rs (fixrot_go omega ms rs ps) = vzero.
+Proof.
+  intros F L1 L2 H1 H2 NC.
+  assert (0 < mdet (inertia ms rs)) as D by (apply pd_det_pos; [apply inertia_sym|apply (inertia_pd ms rs r1 r2); assumption]).
+  exists (msolve (inertia ms rs) (angmom rs ps)).
+  assert (mapply (inertia ms rs) (msolve (inertia ms rs) (angmom rs ps)) = angmom rs ps) as S by (apply msolve_solves; lra).
+  split; [exact S|]. split; [intros o' Ho; apply msolve_unique; [lra|exact Ho]|].
+  apply fixrot_zero_L; assumption.
+Qed.
+Example noncollinear_example : cross (V3 1 0 0) (V3 0 1 0) <> vzero.
+Proof. intro E. injection E. intros. lra. Qed.
